@@ -338,7 +338,13 @@ func sortedKeys(m map[string]bool) []string {
 func replay(res *lib.Result, rep *report, rc replayCase) {
 	switch rc.Kind {
 	case "pair":
-		ev := runPair(rc.Store, rc.A, rc.B, rc.Mode, 20*time.Second, 1)
+		var ev string
+		for try := int64(1); try <= 4; try++ {
+			ev = runPair(rc.Store, rc.A, rc.B, rc.Mode, 5*time.Second, try)
+			if hit, _ := raceOnGuarded(rep, ev); hit {
+				break
+			}
+		}
 		res.Evaluations = 1
 		if hit, text := raceOnGuarded(rep, ev); hit {
 			res.Violate(lib.Violation{Clause: "unsynchronised-access", Case: -1, Key: "replay",
